@@ -28,7 +28,9 @@ GROUPS = [
 # raiser waits for the marker; the multi channel names its lock for release after the switch; the finisher parks before it can be woken)
 IMPORTS = [dict(prop='C11', groups=['signal_wait', 'signal_raise', 'multi_send', 'multi_receive']),
            dict(prop='C20', groups=['msig_wait', 'msig_raise', 'msig_raise_strict']),
-           dict(prop='C04', groups=['mark_completed', 'detach', 'join'])]
+           dict(prop='C04', groups=['mark_completed', 'detach', 'join']),
+           # descriptor waits: the waiter links itself and switches out under the descriptor's spinlock; the poller / close must hold it to walk the list
+           dict(prop='C08', groups=['ev_wait_for_event', 'ev_poll_fd_event', 'ev_fd_closed'])]
 TRUSTED = ['fiber_context_swap: by contract (C19: saves the caller\'s callee-saved state and stack pointer, resumes the target); the stub havocs the resumed manager\'s old fiber and deferred slots',
            'fiber_scheduler_next/schedule/load_balance (C10, C02), mpmc_fifo / mpsc_fifo (C13, C17), fiber_mutex_unlock_internal / fiber_spinlock_unlock (C05, C03), fiber_create_no_sched, free: by contract']
 ASSUMPTIONS = ['SC', 'the global clause "a fiber runs on at most one kernel thread at a time" is the composition of: nothing exposes a fiber before its context is saved (here) + every queue hands an entry to exactly one taker (C02, C13, C17, C20) + the scheduler skips SAVING fibers (C10); the composition is argued in DESIGN.md, not machine-checked',
